@@ -11,7 +11,7 @@ PLANS = {"quick": [(1, "SUPER_", 2000, 12), (1, "CHR", 500, 12), (2, "SUPER_", 2
                       (2, "SUPER_", 10000, 8, "HAP2")]}
 
 
-PV_CAP = {"quick": 2500, "thorough": 12000}
+PV_CAP = {"quick": 1500, "thorough": 10000}
 
 
 def export(run, haps, prefix, n, maxchr, k, firsthap="HAP1"):
@@ -56,6 +56,11 @@ def main(tier, replay=None):
     for i, s in enumerate(scen, 1):
         s["tid"] = i
     traces = C.pmap("harness.remap_engine", "run_scenario", scen, chunk=200)
+    if tier == "thorough":
+        # the derived reports (Reports.tla, model-drift clauses) are judged on every fifth trace only: their predicates cost TLC ten times what C10's do
+        for t in traces:
+            if t["tid"] % 5:
+                t.pop("report", None)
     # uniqueness of names within an assembly also on maps with real geometry: tagged PretextView-model maps (cut and moved pieces, Target mode,
     # sequence absent from the map) of plain and of haplotype-resolved assemblies
     rng = random.Random(C.seed() + 3)
@@ -70,8 +75,13 @@ def main(tier, replay=None):
                             "model_transitions": r["generated"], "wall_s": r["wall_s"], "model": "PretextView.tla tagged"})
     for i, s in enumerate(pv, len(scen) + 1):
         s["tid"] = i
-    traces += C.pmap("harness.remap_engine", "run_scenario", pv, chunk=300)
+    pvt = C.pmap("harness.remap_engine", "run_scenario", pv, chunk=300)
     jr = R.judge(run, traces, ["C10", "MODEL"])
+    jr2 = R.judge(run, pvt, ["C10"], label="RemapTrace-pv")      # the PretextView-model maps: C10's uniqueness clause only
+    traces += pvt
+    jr["V"] += jr2["V"]
+    jr["judged"] += jr2["judged"]
+    jr["N"]["output_scaffolds_checked_for_unique_names"] = jr2["N"].get("pieces_with_core", 0)
     n = C.report(run, "C10", jr["V"], {t["tid"]: t for t in traces})
     for m in jr["M"][:5]:
         print(f"MODEL-DRIFT action={m[2]} trace={m[1]} detail={m[3]}")
